@@ -163,6 +163,7 @@ static inline Caught guarded(F&& f) {
 
 struct K {
   int32_t fam, op, acc, req, buf, var, adv, hist;
+  int32_t past, pad_;  // past: case belongs to the cursor-past-the-end stage (own violation keys)
   u64 n, a, b, cur0, idx;
 };
 
@@ -188,6 +189,7 @@ struct Shm {
   // observations
   u64 evaluations;
   u64 cls[MAX_OPS][NREQ][NOUT];
+  u64 cls_past[MAX_OPS][NOUT];  // same, for the cursor-past-the-end stage only
   u64 acc_hits[MAX_ACC];
   u64 buf_hits[NBUF];
   u64 skipped_poisoned;
@@ -238,7 +240,10 @@ struct Runner {
                    k.buf >= 0 && k.buf < NBUF ? BUF_NAME[k.buf] : "std::string(growable)", k.var, where.c_str(), C->tier.c_str(), C->shard,
                    C->nshards);
   }
-  std::string key_of(const K& k) const {
+  // In the cursor-past-the-end stage the buffer holds no byte the call may legitimately look at, so
+  // anything but a (right-typed) exception or an empty result is an out-of-buffer read.
+  std::string key_of(const K& k, const std::string& symptom = "") const {
+    if (k.past) return "cursor_past_end:" + names.fam[k.fam] + (symptom.find("threw ") != std::string::npos ? ":wrong-exception" : ":out-of-buffer-read");
     return names.fam[k.fam] + ":" + REQ_KEY[k.req];
   }
 
@@ -269,6 +274,7 @@ struct Runner {
       snprintf(shm->samples[shm->nsamples++], 400, "%s -> %s", describe(k).c_str(), OUT_NAME[o]);
     }
     n++;
+    if (k.past) shm->cls_past[k.op][o]++;
     shm->acc_hits[k.acc]++;
     if (k.buf >= 0 && k.buf < NBUF) shm->buf_hits[k.buf]++;
   }
@@ -296,7 +302,7 @@ struct Runner {
   void viol(const K& k, const std::string& symptom, const std::string& detail = "") {
     shm->evaluations++;
     std::string acc = (size_t)k.acc < names.acc.size() ? names.acc[k.acc] : "?";
-    record(key_of(k), acc + ": " + symptom + (detail.empty() ? "" : " (" + detail + ")"), describe(k));
+    record(key_of(k, symptom), acc + ": " + symptom + (detail.empty() ? "" : " (" + detail + ")"), describe(k));
   }
 
   // --- parent side ----------------------------------------------------------------------------
@@ -380,8 +386,9 @@ struct Runner {
 
   // Runs body() in a forked child; on abnormal exit records a violation for the case in progress,
   // poisons that (accessor, request class) and restarts after it.  `by_history`: resume by history index.
-  void run_family(int fam, const std::function<void()>& body, bool by_history = false) {
+  void run_family(int fam, const std::function<void()>& body, bool by_history = false, bool fresh_poison = false) {
     resume_from = 0;
+    if (fresh_poison) memset(shm->poison, 0, sizeof(shm->poison));
     unsigned timeout_s = C->quick() ? 600 : 5400;
     for (unsigned attempt = 0;; attempt++) {
       shm->in_call = 0;
@@ -466,6 +473,9 @@ struct Runner {
       for (int r = 0; r < NREQ; r++)
         for (int u = 0; u < NOUT; u++)
           if (shm->cls[o][r][u]) C->cls(names.op[o] + ":" + REQ_CLASS[r] + ":" + OUT_NAME[u], shm->cls[o][r][u]);
+    for (size_t o = 0; o < names.op.size() && o < (size_t)MAX_OPS; o++)
+      for (int u = 0; u < NOUT; u++)
+        if (shm->cls_past[o][u]) C->cls("cursor_past_end:" + names.op[o] + ":" + OUT_NAME[u], shm->cls_past[o][u]);
     for (size_t a = 0; a < names.acc.size() && a < (size_t)MAX_ACC; a++)
       if (shm->acc_hits[a]) C->count("accessor:" + names.acc[a], shm->acc_hits[a]);
     for (int b = 0; b < NBUF; b++)
